@@ -224,6 +224,13 @@ func init() {
 		props[id].Harnesses = append(props[id].Harnesses, HarnessSpec{Name: "VH_C11_rekey", Replay: "native"})
 	}
 	props["C17"].Harnesses = append(props["C17"].Harnesses, HarnessSpec{Name: "VH_C17_pooled_memory", Replay: "race", Unwind: 400})
+	props["C15"].Harnesses = append(props["C15"].Harnesses, HarnessSpec{Name: "VH_C18_two_documents", Replay: "native", Unwind: 2000})
+	for _, id := range []string{"C13", "C19"} {
+		props[id].Harnesses = append(props[id].Harnesses, HarnessSpec{Name: "VH_C11_rekey", Replay: "native"})
+	}
+	for _, id := range []string{"C01", "C04", "C08", "C17"} {
+		props[id].Harnesses = append(props[id].Harnesses, HarnessSpec{Name: "VH_C01_results_isolated", Replay: "native", Unwind: 400})
+	}
 	trust := HarnessSpec{Name: "VH_C02_trust_store", Replay: "native", Unwind: 400}
 	for _, id := range []string{"C01", "C02", "C04", "C10"} {
 		props[id].Harnesses = append(props[id].Harnesses, trust)
